@@ -59,6 +59,21 @@ add('C18', 'fault_enumeration', 'exhaustive termination-point x extractor-kind e
     'extractor\'s keys (none if it failed); the default lookup returns exactly the complete recordings.',
     'Harness clock replaces time()/datetime in tape_recorder (seams found by scanning); timestamp expected in UTC as on the pinned tree.')
 
+add('C09', 'model_checking', 'explicit-state BFS over run histories on one real recorder object (state = canonical recorder fields) + exhaustive depth-bounded histories with differential probes vs a fresh recorder',
+    'BFS over a 33-letter alphabet of runs (normal, raising, interrupted at three places, discarded four ways, sampled out, forced, failing save / '
+    'extractor / metadata write, skipped, disabled, worker-thread interceptions, seven kinds of replay) on ONE recorder: the canonical state '
+    '(all instance attributes + interception flag on main and pool thread) is searched to closure and the idle invariant is checked in every state; '
+    'in addition every history up to depth 2 (quick) / 3 (thorough) is followed by each of 5 probes whose recording / Playback must equal the same '
+    'probe on a fresh recorder.',
+    'RNG abstracted to the draw counter; recorder state = instance attributes + thread-local flag (module-level state is only covered by the probes).')
+add('C17', 'model_checking', 'exhaustive decision table with scripted draws + explicit-state history search over classes sharing one recorder + deterministic seeded differential runs',
+    'All 4320 rows of skipped x rate x force x ignore x discard x outcome x scripted draw (incl. draw == rate and rate +- 1e-9) are decided on the '
+    'real recorder and compared with the documented policy, draws consumed included; all histories up to depth 2/3 of 48 run letters over five classes '
+    'with different parameters on one recorder (forcing must not leak); seeded histories (same seed twice, paired history differing only in content and '
+    'outcome) against Random(seed), seeds 0, 1, 110613 and VERIF_SEED; the S3 sampling calculator with scripted draws and its seeded sequence for two '
+    'cassettes in one process.',
+    'kept iff draw <= rate as the recorder logs; PRNG uniformity trusted; scripted draws injected through the private Random instance.')
+
 NOT_YET = {}
 
 
